@@ -221,6 +221,8 @@ class Ctx:
         self.known_hits = {}      # key -> count
         self.known = known_findings(prop)
         self._replay_n = 0
+        self._vkeys = set()
+        self.violations_dropped = 0
 
     # counting helpers
     def count(self, cls, n=1):
@@ -237,10 +239,13 @@ class Ctx:
                 print("KNOWN-FINDING: property=%s %s :: %s" % (self.prop, key, self.known[key]))
             self.known_hits[key] = self.known_hits.get(key, 0) + 1
             return False
-        seen = set(v[0] for v in self.violations)
-        if key in seen or len(seen) >= 25:
-            self.violations.append((key, None, message))
+        if key in self._vkeys or len(self._vkeys) >= 25:
+            if len(self.violations) < 100000:
+                self.violations.append((key, None, message))
+            else:
+                self.violations_dropped += 1
             return True
+        self._vkeys.add(key)
         self._replay_n += 1
         rdir = os.path.join(VERIF, "replays", self.prop)
         os.makedirs(rdir, exist_ok=True)
